@@ -152,12 +152,69 @@ def h_crash_meta(k: int) -> bool:
     return run(body_crash_meta, k)
 
 
+# ------------------------------------------------------------------ crash images of REAL repositories
+REAL_OPS = [
+    {"m": "PUT", "p": "/user/calendars/cal/n.ics", "b": "xn", "ct": "text/calendar"},        # create
+    {"m": "PUT", "p": "/user/calendars/cal/a.ics", "b": "ya", "ct": "text/calendar"},        # replace
+    {"m": "DELETE", "p": "/user/calendars/cal/a.ics"},
+    {"m": "POST", "p": "/user/calendars/cal/", "b": "xq", "ct": "text/calendar"},
+    {"m": "PUT", "p": "/user/calendars/cal/t.txt", "b": "hello", "ct": "application/octet-stream"},
+    {"m": "PROPPATCH", "p": "/user/calendars/cal/", "prop": "displayname", "b": "Home"},
+    {"m": "PROPPATCH", "p": "/user/calendars/cal/", "prop": "color", "b": "#00ff00"},
+    {"m": "PUT", "p": "/user/calendars/cal/a.ics", "b": "xa", "ct": "text/calendar"},        # no-op rewrite
+]
+
+
+def body_real_images(oi):
+    """One request through the real WSGI entry point onto REAL on-disk repositories with every Python-level
+    file-system mutation primitive wrapped (xv/real_c04.py): the directory image at each such point - what a crash
+    there leaves behind - opens in a fresh server, shows the old or the new state, keeps every other member, and
+    passes `git fsck`."""
+    from xv.core import pick, untraced
+    oi = pick(oi, len(REAL_OPS))
+    with untraced():
+        import json
+        import os
+        import subprocess
+        import xv
+        p = subprocess.run(["/venv/bin/python", os.path.join(os.path.dirname(__file__), "..", "real_c04.py"),
+                            json.dumps({"cal": {"a.ics": "xa", "b.ics": "xb"}, "op": REAL_OPS[oi]})], capture_output=True,
+                           text=True, cwd=xv.REPO, env={"PATH": os.environ.get("PATH", ""), "PYTHONPATH": xv.REPO}, timeout=600)
+        if p.returncode != 0:
+            raise RuntimeError("real crash-image driver failed: " + p.stderr[-600:])
+        res = json.loads(p.stdout)
+        if res["points"] < 3 and oi != 7:
+            return (False, "no-crash-points")  # the wrappers no longer see the writes: the harness must be adapted
+        if res["bad"]:
+            ctx.LAST_EXC = repr(res["bad"][:3])
+            return (False, "real-image")
+        return (True, "images:" + REAL_OPS[oi]["m"])
+
+
+def h_real_images(oi: int) -> bool:
+    """
+    pre: 0 <= oi < len(REAL_OPS)
+    post: _
+    """
+    return run(body_real_images, oi)
+
+
 _B = {"quick": {"blen": 2, "kmax": 24}, "thorough": {"blen": 2, "kmax": 24}}
 _PARTS = [(k, op, "plain") for k in mstore.KINDS for op in (0, 1)]
 _META_PARTS = [("vdir", 2, "plain"), ("bare", 2, "filecfg"), ("tree", 2, "filecfg"), ("bare", 2, "gitcfg"),
                ("tree", 2, "gitcfg"), ("tree", 3, "gitcfg"), ("bare", 3, "filecfg"), ("vdir", 3, "plain")]
 
 HARNESSES = [
+    Harness("real_images", h_real_images, body_real_images, classes=["images:PUT", "images:DELETE", "images:PROPPATCH"],
+            budget={"quick": 200, "thorough": 400}, per_path_timeout={"quick": 150, "thorough": 150},
+            twin_budget={"quick": 120, "thorough": 150},
+            describe="crash images of REAL on-disk repositories: create / replace / delete / POST / plain-file PUT / two "
+                     "property sets / a no-op rewrite through the real WSGI entry point with every Python-level file-system "
+                     "mutation wrapped (about 30 points per request); each image opens in a fresh server, shows old or new "
+                     "state, and passes git fsck (xv/real_c04.py)",
+            encodes=["xandikos.store.git.TreeGitStore._import_one", "xandikos.store.git.TreeGitStore.delete_one",
+                     "xandikos.store.git.locked_index", "xandikos.store.git.GitStore._commit_tree",
+                     "xandikos.store.config.FileBasedCollectionMetadata._save"]),
     Harness("crash", h_crash, body_crash,
             classes=[("put:crash", ("tree", 0, "plain")), ("put:completed", ("bare", 0, "plain")),
                      ("delete:crash", ("vdir", 1, "plain"))],
